@@ -52,6 +52,8 @@ const POOL: &[&str] = &[
     // and therefore contributes nothing - in particular it is not a blanket exception
     "||x.com^$csp",
     "x.com/p$csp,domain=y.com",
+    // a pattern-less rule with several initiator domains (filed once per domain)
+    "$csp=d13,domain=y.com|x.com",
 ];
 
 fn requests() -> Vec<Req> {
@@ -110,6 +112,13 @@ fn csp_rule_applies(rule: &str, url: &str, src: &str, tags: &[String]) -> Option
             is_csp = true;
             directive = Some(d.to_string());
         } else if let Some(d) = o.strip_prefix("domain=") {
+            if d.contains('|') {
+                // several positive entries (the pool has no mixed list): one of them must cover
+                if src_host.is_empty() || !d.split('|').any(|x| covers(x, src_host)) {
+                    return None;
+                }
+                continue;
+            }
             let (neg, d) = match d.strip_prefix('~') {
                 Some(d) => (true, d),
                 None => (false, d),
@@ -148,6 +157,45 @@ fn csp_rule_applies(rule: &str, url: &str, src: &str, tags: &[String]) -> Option
 /// Compares the engine's CSP answer with the set algebra over the independently applicable rules.
 fn check_independent(items: &[&str], reqs: &[Req], l: &mut Local) {
     // two subjects: built without and with optimisation (the csp list is optimised like any other)
+    // a third subject: an empty blocker that receives the rules one by one (`Blocker::add_filter`)
+    {
+        use adblock::blocker::{Blocker, BlockerOptions};
+        use adblock::filters::network::NetworkFilter;
+        let built = vh::util::catch(|| {
+            let mut b = Blocker::new(vec![], &BlockerOptions { enable_optimizations: false });
+            for r in items {
+                if let Ok(f) = NetworkFilter::parse(r, true, Default::default()) {
+                    let _ = b.add_filter(f);
+                }
+            }
+            b
+        });
+        if let Ok(mut b) = built {
+            let tags_present = vh::alpha::tags_in(items);
+            for tagset in vh::util::subsets_of(&tags_present) {
+                let refs: Vec<&str> = tagset.iter().map(|s| s.as_str()).collect();
+                b.use_tags(&refs);
+                for rq in reqs {
+                    if !rq.req.is_supported {
+                        continue;
+                    }
+                    let hits: Vec<(Option<String>, bool)> = items.iter().filter_map(|r| csp_rule_applies(r, &rq.url, &rq.source, &tagset)).collect();
+                    let exp = vh::oracle::netspec::spec_csp(&rq.req, &hits);
+                    let got = vh::util::catch(|| vh::net::csp_set(&b.get_csp_directives(&rq.req)));
+                    l.compared += 1;
+                    l.transitions += 1;
+                    if got.as_ref().ok() != Some(&exp) {
+                        l.mismatch(vh::Mismatch {
+                            sig: "c15.csp.rule-applicability.rules-added-one-by-one".into(),
+                            what: format!("rules {:?} added with Blocker::add_filter, tags {:?}, request ({}, {}, {}): option semantics give {:?}, blocker {:?}", items, tagset, rq.url, rq.source, rq.ty, exp, got),
+                            case: serde_json::json!({"rules": items, "hosts": [], "tags": tagset, "url": rq.url, "source": rq.source, "type": rq.ty, "independent": true}),
+                            size: (items.len() * 10000 + rq.url.len() * 4 + rq.source.len()) as u64,
+                        });
+                    }
+                }
+            }
+        }
+    }
     for optimize in [false, true] {
     let mut e = vh::netsweep::build_engine(items, &[], optimize, false);
     let tags_present = vh::alpha::tags_in(items);
